@@ -6,7 +6,7 @@
 From Coq Require Import String Ascii List Bool ZArith Arith Lia.
 From Bardic Require Import PyStr Value Compiled Engine EngineBase EngineNav EngineParams EngineSem EngineJump
      EngineUndo EngineHooks PyMini EngineCheck EngineReach Codec SaveLoad JsonText CodecProofs JsonTextProofs
-     JsonTextSave StoryWfChoose SaveOutEnc.
+     JsonTextSave StoryWfChoose SaveOutEnc ArgKeys.
 Import ListNotations.
 Local Open Scope list_scope.
 
@@ -217,13 +217,15 @@ Variable ctxkeys : list string.
 Variable st : story.
 
 (* the author-code oracle returns Python values when it is given Python values: eval gives a value whose dicts
-   have distinct keys; the context after exec holds such values; the argument dictionary of "f(<args>)"
-   ({arg_0: .., arg_1: .., kw: ..}) is a dict of such values *)
+   have distinct keys; the context after exec holds such values; the evaluated arguments of "f(<args>)" -- the
+   positional values and the values of the keyword pairs -- are such values.  Nothing is asked of the keyword NAMES:
+   the engine assigns them into one dict after arg_0, arg_1, .. (Engine.args_dict), so the argument dictionary has
+   distinct keys whatever they are (args_dict_kd below; f(1, arg_0=2) gives {"arg_0": 2}) *)
 Record orc_kd : Prop := mkOrcKd {
   ok_eval : forall ctx code v, env_kd ctx -> o_eval orc ctx code = Ok v -> value_kd v;
   ok_exec : forall ctx code ctx', env_kd ctx -> o_exec orc ctx code = Ok ctx' -> vkd ctx';
   ok_args : forall ctx a pos kw, env_kd ctx -> o_args orc ctx a = Ok (pos, kw) ->
-            env_kd (number_args 0 pos ++ kw) }.
+            Forall value_kd pos /\ vkd kw }.
 
 Hypothesis Horc : orc_kd.
 
@@ -427,11 +429,24 @@ Proof.
   - apply Forall_forall. intros x Hx. apply in_map_iff in Hx. destruct Hx as [kv [<- _]]. exact I.
 Qed.
 
+Lemma number_args_vkd : forall pos b, Forall value_kd pos -> vkd (number_args b pos).
+Proof.
+  induction pos as [|v r IH]; intros b H; [constructor|]. inversion H as [|x l Hx Hr]; subst.
+  cbn [number_args]. constructor; [exact Hx|apply IH; exact Hr].
+Qed.
+
+(* the argument dictionary is a Python dict of Python values, whatever the keyword names are *)
+Lemma args_dict_kd pos kw : Forall value_kd pos -> vkd kw -> env_kd (args_dict pos kw).
+Proof.
+  intros Hp Hk. unfold args_dict. apply env_kd_update; [|exact Hk].
+  apply env_kd_iff. split; [exact (number_args_nodup pos 0)|apply number_args_vkd; exact Hp].
+Qed.
+
 Lemma parse_args_kd ctx args d : env_kd ctx -> parse_args orc ctx args = Ok d -> env_kd d.
 Proof.
   intros Hctx E. unfold parse_args in E. destruct (all_space args); [inversion E; subst; exact env_kd_nil|].
   destruct (o_args orc ctx args) as [[pos kw]|e] eqn:Ea; [|discriminate E].
-  inversion E; subst. eapply ok_args; eauto.
+  inversion E; subst. destruct (ok_args Horc _ _ _ _ Hctx Ea) as [Hp Hk]. apply args_dict_kd; assumption.
 Qed.
 
 Lemma process_render_kd ctx name args fw : env_kd ctx -> rdir_kd (process_render orc ctx name args fw).
@@ -897,9 +912,9 @@ Theorem played_stacks_kd e slot :
   Forall core_kd (undo_stack e) /\ Forall core_kd (redo_stack e) /\ (forall c, slot = Some c -> core_kd c).
 Proof. intros H. destruct (played_kd_EI orc ctxkeys st Horc e slot H) as [(_ & A & B & _) C]. tauto. Qed.
 
-Theorem played_save_text_roundtrip cx fuel e slot doc :
+Theorem played_save_text_roundtrip cx fuel now e slot doc :
   ctx_kd cx -> played_kd orc ctxkeys st e slot ->
-  save_json cx fuel (out_enc_std cx fuel) e = Some doc ->
+  save_json st cx fuel (out_enc_std cx fuel) now e = Some doc ->
   loads (dumps doc) = Some (json_rt doc) /\ loads (dumps_indent2 doc) = Some (json_rt doc).
 Proof.
   intros Hcx Hp Hs. destruct (played_state_kd e slot Hp) as (A & B & C & D).
@@ -907,17 +922,17 @@ Proof.
   intros o Ho. apply out_enc_std_kd; [exact Hcx|exact (D o Ho)].
 Qed.
 
-Theorem reachable_save_text_roundtrip cx fuel e doc :
+Theorem reachable_save_text_roundtrip cx fuel now e doc :
   ctx_kd cx -> reach_kd orc ctxkeys st e ->
-  save_json cx fuel (out_enc_std cx fuel) e = Some doc ->
+  save_json st cx fuel (out_enc_std cx fuel) now e = Some doc ->
   loads (dumps doc) = Some (json_rt doc) /\ loads (dumps_indent2 doc) = Some (json_rt doc).
 Proof. intros Hcx Hr. apply reach_kd_played in Hr. eapply played_save_text_roundtrip; eauto. Qed.
 
 (* for any other encoder of the displayed output that writes Python data for outputs with Python directive data *)
-Theorem played_save_text_roundtrip_gen cx fuel out_enc e slot doc :
+Theorem played_save_text_roundtrip_gen cx fuel out_enc now e slot doc :
   ctx_kd cx -> (forall o, out_kd o -> keys_distinct (out_enc o)) ->
   played_kd orc ctxkeys st e slot ->
-  save_json cx fuel out_enc e = Some doc ->
+  save_json st cx fuel out_enc now e = Some doc ->
   loads (dumps doc) = Some (json_rt doc) /\ loads (dumps_indent2 doc) = Some (json_rt doc).
 Proof.
   intros Hcx He Hp Hs. destruct (played_state_kd e slot Hp) as (A & B & C & D).
